@@ -186,7 +186,7 @@ def rule_fields(ctx):
     for fn, setter in (("halfmove_clock", "halfmove_clock"), ("fullmove_counter", "fullmove_counter")):
         pb = ctx.body(SER + fn)
         r = ctx.sym(pb).local(0)
-        ok = r[0] == "call" and r[1] == BB + setter and "parse" in expr_str(r[2][1]) and "str" in expr_str(r[2][1])
+        ok = r[0] == "call" and r[1] == BB + setter and parsed_number_of(r[2][1], "str")
         ctx.check(ok, "parser:%s" % fn, "%s = builder.%s(str.parse())" % (fn, setter), pb.where(0), bad_what="%s returns `%s`" % (fn, expr_str(r)[:100]))
 
 
@@ -226,6 +226,28 @@ def rule_castle_letters(ctx):
     ctx.check(ok, "BoardBuilder::castling:table", "BoardBuilder::castling(kind, value) writes the field of that kind", cb.where(0), bad_what="BoardBuilder::castling writes %s" % {k: v[0] for k, v in table.items()})
 
 
+def parsed_number_of(e, arg):
+    """e is str::parse(<arg>) possibly wrapped in ok()/unwrap()/expect()/unwrap_or(const) and reference plumbing, and
+    nothing else: the setter receives the number written in the FEN, not a function of it."""
+    seen_parse = False
+    while True:
+        e = mir.strip_refs(e)
+        if e[0] == "call" and isinstance(e[1], str):
+            name = e[1].split("::")[-1]
+            if name == "parse" and e[1].endswith("str>::parse"):
+                seen_parse = True
+                e = e[2][0]
+                continue
+            if name in ("ok", "unwrap", "expect", "deref", "as_str", "trim") and e[2]:
+                e = e[2][0]
+                continue
+            if name in ("unwrap_or", "unwrap_or_default") and e[2] and (len(e[2]) == 1 or e[2][1][0] == "const"):
+                e = e[2][0]
+                continue
+            return False
+        return seen_parse and e == ("arg", arg)
+
+
 def rule_side_and_ep(ctx):
     ix = ctx.ix
     b = ctx.body(SER + "current_turn")
@@ -256,6 +278,13 @@ def rule_side_and_ep(ctx):
         lo = any(c[3][2] == ("const", 97, "u32") or c[3][2][:2] == ("const", 97) for c in rng)
         hi = any(c[3][3][:2] == ("const", 104) for c in rng)
         ok_some = "Sub" in txt and "97" in txt and lo and hi
+    setters = [(bi, tt) for bi, tt in e.calls() if callee_is(tt, BB + "en_passant_file")]
+    direct = False
+    if len(setters) == 1:
+        vals = C.operand_cases(e, esym, setters[0][0], setters[0][1]["args"][1])
+        direct = bool(vals) and all(v[0] == "agg" and isinstance(v[1], str) and v[1].endswith("Option") and v[2] in ("Some", "None") for _vb, v in vals)
+    ctx.check(direct, "ep:decoded-file-stored-as-is", "the builder receives the decoded en-passant file itself (None / Some(file)), not a function of it", e.where(setters[0][0] if setters else 0),
+              bad_what="the decoded en-passant file is transformed (filtered, mapped, conditioned on the position) before it is stored: the loaded position differs from the one the FEN describes")
     ctx.check(ok_none and ok_some, "ep:file-from-letter", "'-' -> None; 'a'..='h' -> Some(letter - 'a')", e.where(0), bad_what="en-passant field parsing is not `'-' => None, 'a'..='h' => Some(c - 'a')` (%s)" % {k: expr_str(v[0])[:60] for k, v in rows.items()})
 
 
@@ -322,7 +351,11 @@ def rule_build(ctx):
     ctx.check(e[0] == "call" and e[1] == PBB + "build" and "bitboards" in expr_str(e), "build:bitboards", "Board.bitboards = self.bitboards.build()", b.where(0), bad_what="Board.bitboards is `%s`" % expr_str(e))
     # history[0].halfmove_clock = self.halfmove_clock, before the clone
     asg = [(bi, i, s) for bi, i, s in b.stmts() if fields_of(s["lhs"])[-1:] == ("halfmove_clock",)]
-    ok = len(asg) == 1 and "halfmove_clock" in expr_str(sym.rvalue(asg[0][2]["rv"]))
+    okv = False
+    if len(asg) == 1:
+        v = mir.strip_copies(sym.rvalue(asg[0][2]["rv"]))
+        okv = v[0] == "field" and v[-1] == "halfmove_clock" and mir.strip_refs(v[1]) == ("arg", "self")  # the value itself, not a function of it
+    ok = len(asg) == 1 and okv
     ctx.check(ok, "build:clock-into-history", "the parsed half-move clock is written into the history record that get_halfmove_clock reads", b.where(asg[0][0] if asg else 0), bad_what="build does not store halfmove_clock into the history record")
     sub = engine.Ctx(ctx.prop, ix, ctx.config)
     sub.cur_rule = ctx.cur_rule
@@ -330,7 +363,39 @@ def rule_build(ctx):
     ctx.insts.extend(i for i in sub.insts if "BoardBuilder::build" in i.key)
 
 
-RULES = [("letters", rule_letters), ("bijection", rule_bijection), ("fields", rule_fields), ("castle-letters", rule_castle_letters), ("side-ep", rule_side_and_ep),
+def rule_setters(ctx):
+    """The scalar setters of BoardBuilder store their argument, unchanged, in the field they are named after, and write
+    nothing else: between the FEN parser and Board nothing rescales, clamps or filters a value."""
+    from . import effects
+    ix = ctx.ix
+    e = effects.Effects(ix)
+    for name, field, arg in (("turn", "current_turn", 2), ("en_passant_file", "en_passant_file", 2), ("halfmove_clock", "halfmove_clock", 2), ("fullmove_counter", "fullmove_counter", 2)):
+        b = ctx.body(BB + name)
+        sym = ctx.sym(b)
+        asg = [(bi, s) for bi, i, s in b.stmts() if s["lhs"]["l"] == 1 and s["lhs"]["p"]]
+        ok = len(asg) == 1 and fields_of(asg[0][1]["lhs"]) == (field,)
+        if ok:
+            v = mir.strip_copies(sym.rvalue(asg[0][1]["rv"]))
+            ok = v == ("arg", b.local_name(arg)) and not b.in_loop(asg[0][0]) and b.dominates(asg[0][0], [x.idx for x in b.blocks if x.term["k"] == "return"][0])
+        calls = [strip_generics(t.get("callee") or "") for _bi, t in b.calls()]
+        ctx.check(ok and not calls, "setter:%s" % name, "BoardBuilder::%s stores its argument in self.%s on every path and does nothing else" % (name, field), b.where(0),
+                  bad_what="BoardBuilder::%s is not the plain store `self.%s = <argument>` (assignments: %s, calls: %s)" % (name, field, [(fields_of(s["lhs"]), expr_str(sym.rvalue(s["rv"]))[:40]) for _b, s in asg], calls[:4]))
+    # castling(kind, value): the right named by `kind` receives `value`
+    cb = ctx.body(BB + "castling")
+    csym = ctx.sym(cb)
+    rows = {}
+    for bi, i, s in cb.stmts():
+        fp = fields_of(s["lhs"])
+        if len(fp) >= 2 and fp[-2] == "castling_rights":
+            v = mir.strip_copies(csym.rvalue(s["rv"]))
+            kinds = [next(iter(c[1])) for c in C.constraints_for(ix, cb, csym, bi) if len(c[1]) == 1 and next(iter(c[1])) in c04.KIND_FIELD]
+            rows[kinds[-1] if kinds else None] = (fp[-1], v)
+    want = {k: (f, ("arg", "value")) for k, f in c04.KIND_FIELD.items()}
+    ctx.check(rows == want, "setter:castling", "BoardBuilder::castling(kind, value) stores `value` in the right named by `kind`", cb.where(0),
+              bad_what="BoardBuilder::castling stores %s" % {k: (f, expr_str(v)) for k, (f, v) in rows.items()})
+
+
+RULES = [("setters", rule_setters), ("letters", rule_letters), ("bijection", rule_bijection), ("fields", rule_fields), ("castle-letters", rule_castle_letters), ("side-ep", rule_side_and_ep),
          ("history", rule_history), ("build", rule_build)]
 
 
